@@ -67,8 +67,57 @@ def run_tables(lib, tables):
         nf = lib.shim_dssp(F, n, ptr(hb), ptr(chain), ptr(missing), ptr(turn), out)
         assert nf == F
         s = out.raw[:F * n].decode("ascii")
-        res.append([s[f * n:(f + 1) * n] for f in range(F)])
+        strings = [s[f * n:(f + 1) * n] for f in range(F)]
+        if t.get("pylayer"):
+            res.append({"c": strings, "py": run_pylayer(t, strings)})
+        else:
+            res.append({"c": strings})
     return res
+
+
+def run_pylayer(t, strings):
+    """dssp.py on top of a stubbed _geometry._dssp that returns `strings` (what mdtraj's dssp() produced for the
+    synthetic table): exercises the simplified translation, the reshape and the 'NA' overlay with all 8 codes."""
+    import mdtraj as md
+    from mdtraj.geometry import dssp as dssp_mod
+    n = t["n"]
+    top = md.Topology()
+    chains = {}
+    for i in range(n):
+        c = t["chain"][i]
+        if c not in chains:
+            chains[c] = top.add_chain()
+        res = top.add_residue("ALA", chains[c])
+        m = t["missing"][i]
+        for bit, name, el in ((1, "N", md.element.nitrogen), (8, "CA", md.element.carbon),
+                              (2, "C", md.element.carbon), (4, "O", md.element.oxygen)):
+            if not (m & bit):
+                top.add_atom(name, el, res)
+        if m == 15:
+            top.add_atom("OW", md.element.oxygen, res)
+    F = len(strings)
+    traj = md.Trajectory(np.zeros((F, top.n_atoms, 3), dtype=np.float32), top)
+    seen = {}
+
+    class Stub:
+        @staticmethod
+        def _dssp(xyz, nco, ca, pro, chain_ids):
+            seen["chain"] = [int(x) for x in chain_ids]
+            seen["skip"] = [int(min(int(a), int(b), int(c), int(d)) < 0) for (a, b, c), d in zip(nco.tolist(), ca.tolist())]
+            seen["shape"] = list(xyz.shape)
+            return "".join(strings)
+
+    orig = dssp_mod._geometry
+    dssp_mod._geometry = Stub()
+    try:
+        full = md.compute_dssp(traj, simplified=False)
+        simp = md.compute_dssp(traj, simplified=True)
+    finally:
+        dssp_mod._geometry = orig
+    args_ok = (seen.get("chain") == [sorted(set(t["chain"])).index(c) for c in t["chain"]]
+               and seen.get("skip") == [int(m != 0) for m in t["missing"]] and seen.get("shape") == [F, top.n_atoms, 3])
+    return {"full": [[str(x) for x in row] for row in full], "simp": [[str(x) for x in row] for row in simp],
+            "args_ok": bool(args_ok), "shape": list(full.shape)}
 
 
 def run_bridge_probe(lib, probes):
